@@ -15,30 +15,34 @@
 (* produced for it on the connection it is read from, or with an error, and  *)
 (* an error needs a failure during that very call.                           *)
 (***************************************************************************)
-EXTENDS Naturals, Sequences, FiniteSets, TLC
+EXTENDS Naturals, Sequences, FiniteSets, TLC, Json
 
 CONSTANTS MaxExch        \* exchanges per run (the first one is the negotiation inside Dial)
 
 Points == {"write", "read-first", "read-mid", "after-reply"}
-KindsAt(p) == CASE p = "write" -> {"eof", "closed", "reset", "short"}        \* eof at a write: the peer has gone (broken pipe)
-                [] p = "after-reply" -> {"eof", "reset"}                       \* eof: the server closes right after replying
-                [] OTHER -> {"eof", "closed", "reset"}
+\* a write fails at the client's socket (eof: the peer has gone, broken pipe; closed; reset; short write); a read fails because of what
+\* the peer does (eof: it closes; reset) - before replying, after a part of the response, or right after the complete response
+KindsAt(p) == IF p = "write" THEN {"eof", "closed", "reset", "short"} ELSE {"eof", "reset"}
 NoPlan == [pt |-> "none", kind |-> "none", persist |-> FALSE, exch |-> 0]
 Plans == {NoPlan} \cup UNION {{[pt |-> p, kind |-> k, persist |-> b, exch |-> e] : k \in KindsAt(p), b \in BOOLEAN, e \in 1..2} : p \in Points}
 
-VARIABLES plan, exch, pc, gen, dead, sent, replied, tries, dials, attempts, budget, failedNow, fired, result
-vars == <<plan, exch, pc, gen, dead, sent, replied, tries, dials, attempts, budget, failedNow, fired, result>>
+VARIABLES plan, exch, pc, gen, dead, sent, replied, tries, dials, attempts, budget, failedNow, fired, result,
+          idleDeath      \* the connection died while no call was using it: the client learns it when it next uses the connection
+vars == <<plan, exch, pc, gen, dead, sent, replied, tries, dials, attempts, budget, failedNow, fired, result, idleDeath>>
 
 Init == /\ plan \in Plans /\ exch = 0 /\ pc = "idle" /\ gen = 0 /\ dead = FALSE /\ sent = FALSE /\ replied = FALSE
-        /\ tries = 0 /\ dials = 0 /\ attempts = 0 /\ budget = 3 /\ failedNow = FALSE /\ fired = 0 /\ result = <<>>
+        /\ tries = 0 /\ dials = 0 /\ attempts = 0 /\ budget = 3 /\ failedNow = FALSE /\ fired = 0 /\ result = <<>> /\ idleDeath = FALSE
 
 \* the fault applies to the current connection: in the planned exchange (and, when persistent, in every later one), once per
 \* connection; a fault that is not persistent fires once in the whole run
 Applies == /\ plan.pt # "none" /\ pc = "busy" /\ ~dead /\ gen > 0
            /\ IF plan.persist THEN exch >= plan.exch ELSE exch = plan.exch /\ fired = 0
 
+\* (a connection that died while it was idle counts as a failure of the call that finds it dead; a connection a call has seen
+\* fail does not: the next call must not pay for it)
 Begin == /\ pc = "idle" /\ exch < MaxExch
-         /\ exch' = exch + 1 /\ pc' = "busy" /\ tries' = 0 /\ dials' = 0 /\ attempts' = 0 /\ budget' = 3 /\ failedNow' = FALSE
+         /\ exch' = exch + 1 /\ pc' = "busy" /\ tries' = 0 /\ dials' = 0 /\ attempts' = 0 /\ budget' = 3
+         /\ failedNow' = idleDeath /\ idleDeath' = FALSE
          /\ sent' = FALSE /\ replied' = FALSE
          /\ UNCHANGED <<plan, gen, dead, fired, result>>
 
@@ -46,43 +50,43 @@ Begin == /\ pc = "idle" /\ exch < MaxExch
 Dial == /\ pc = "busy" /\ (gen = 0 \/ dead)
         /\ IF attempts = 0 THEN budget' = budget ELSE budget > 0 /\ budget' = budget - 1
         /\ gen' = gen + 1 /\ dead' = FALSE /\ sent' = FALSE /\ replied' = FALSE /\ dials' = dials + 1
-        /\ UNCHANGED <<plan, exch, pc, tries, attempts, failedNow, fired, result>>
+        /\ UNCHANGED <<plan, exch, pc, tries, attempts, failedNow, fired, result, idleDeath>>
 
 \* the request is written; the server has received it completely
 Rx == /\ pc = "busy" /\ gen > 0 /\ ~dead /\ ~sent
       /\ ~(Applies /\ plan.pt = "write")
       /\ sent' = TRUE /\ tries' = tries + 1 /\ attempts' = attempts + 1
-      /\ UNCHANGED <<plan, exch, pc, gen, dead, replied, dials, budget, failedNow, fired, result>>
+      /\ UNCHANGED <<plan, exch, pc, gen, dead, replied, dials, budget, failedNow, fired, result, idleDeath>>
 
 FaultWrite == /\ Applies /\ plan.pt = "write" /\ ~sent
               /\ dead' = TRUE /\ failedNow' = TRUE /\ fired' = fired + 1 /\ attempts' = attempts + 1
-              /\ UNCHANGED <<plan, exch, pc, gen, sent, replied, tries, dials, budget, result>>
+              /\ UNCHANGED <<plan, exch, pc, gen, sent, replied, tries, dials, budget, result, idleDeath>>
 
 Reply == /\ pc = "busy" /\ sent /\ ~replied /\ replied' = TRUE
-         /\ UNCHANGED <<plan, exch, pc, gen, dead, sent, tries, dials, attempts, budget, failedNow, fired, result>>
+         /\ UNCHANGED <<plan, exch, pc, gen, dead, sent, tries, dials, attempts, budget, failedNow, fired, result, idleDeath>>
 
 \* a read fails: before any byte of the response was read (whether or not the server has replied), or in the middle of it
 FaultRead == /\ Applies /\ sent
              /\ \/ plan.pt = "read-first"
                 \/ plan.pt = "read-mid" /\ replied
              /\ dead' = TRUE /\ failedNow' = TRUE /\ fired' = fired + 1
-             /\ UNCHANGED <<plan, exch, pc, gen, sent, replied, tries, dials, attempts, budget, result>>
+             /\ UNCHANGED <<plan, exch, pc, gen, sent, replied, tries, dials, attempts, budget, result, idleDeath>>
 
 \* the response was read completely from a connection that had not failed
 RetResp == /\ pc = "busy" /\ replied /\ ~dead
            /\ result' = Append(result, "resp") /\ pc' = "idle"
-           /\ UNCHANGED <<plan, exch, gen, dead, sent, replied, tries, dials, attempts, budget, failedNow, fired>>
+           /\ UNCHANGED <<plan, exch, gen, dead, sent, replied, tries, dials, attempts, budget, failedNow, fired, idleDeath>>
 
 \* the connection fails after the exchange is over (the read that waits for the next response)
 FaultAfter == /\ plan.pt = "after-reply" /\ pc = "idle" /\ ~dead /\ gen > 0 /\ result # <<>> /\ result[Len(result)] = "resp"
               /\ IF plan.persist THEN exch >= plan.exch ELSE exch = plan.exch /\ fired = 0
-              /\ dead' = TRUE /\ fired' = fired + 1
+              /\ dead' = TRUE /\ fired' = fired + 1 /\ idleDeath' = TRUE
               /\ UNCHANGED <<plan, exch, pc, gen, sent, replied, tries, dials, attempts, budget, failedNow, result>>
 
 \* giving up needs a failure during this call
 RetErr == /\ pc = "busy" /\ failedNow
           /\ result' = Append(result, "err") /\ pc' = "idle"
-          /\ UNCHANGED <<plan, exch, gen, dead, sent, replied, tries, dials, attempts, budget, failedNow, fired>>
+          /\ UNCHANGED <<plan, exch, gen, dead, sent, replied, tries, dials, attempts, budget, failedNow, fired, idleDeath>>
 
 Next == Begin \/ Dial \/ Rx \/ FaultWrite \/ Reply \/ FaultRead \/ RetResp \/ FaultAfter \/ RetErr
 Spec == Init /\ [][Next]_vars /\ WF_vars(Next)
@@ -93,14 +97,14 @@ AtMostFour == tries <= 4 /\ dials <= 4
 \* did not hit
 Recovers == \A i \in 1..Len(result) :
               result[i] = "err" => /\ plan.pt # "none"
-                                   /\ (~plan.persist => i = plan.exch)
+                                   /\ (~plan.persist => IF plan.pt = "after-reply" THEN i = plan.exch + 1 ELSE i = plan.exch)
                                    /\ (plan.persist => i >= plan.exch)
-\* a failure after the complete response never costs a call its response
-AfterReplyHarmless == plan.pt = "after-reply" /\ ~plan.persist => \A i \in 1..Len(result) : result[i] = "resp"
+\* a failure after the complete response does not cost that call its response
+AfterReplyHarmless == plan.pt = "after-reply" /\ Len(result) >= plan.exch /\ (~plan.persist \/ plan.exch = 1) => result[plan.exch] = "resp"
 Inv == TypeOK /\ AtMostFour /\ Recovers /\ AfterReplyHarmless
 \* every exchange ends
 Ends == <>[](exch = MaxExch /\ pc = "idle")
 
 \* case generation: the plans
-Emit == exch = 0 /\ pc = "idle" /\ gen = 0 => PrintT(<<"CASE", plan>>)
+Emit == exch = 0 /\ pc = "idle" /\ gen = 0 => PrintT(<<"CASE", ToJson(plan)>>)
 =============================================================================
